@@ -9,7 +9,8 @@ import (
 
 // BigIntTrusted documents the trusted model of math/big.Int for the evidence file.
 const BigIntTrusted = "math/big.Int is modelled as a mathematical integer: NewInt/SetInt64/SetUint64/Set/Neg/Abs/Add/Sub/Mul/Sign/Cmp/IsInt64/Int64/IsUint64/Uint64 " +
-	"are exact integer operations, every other method is an uninterpreted function of the operands' values (same inputs, same result), results alias the receiver as in the library"
+	"are exact integer operations, String is an uninterpreted function of the value that is non-empty and starts with '-' exactly for negative values, every other method is an uninterpreted function " +
+	"of the operands' values (same inputs, same result; the receiver of z.Op(x, y) is only the destination), results alias the receiver as in the library"
 
 const bigIntKey = "big.Int.val"
 
@@ -33,6 +34,30 @@ func (x *Exec) bigBridges() (ofI64, ofU64, toI64 string) {
 func (x *Exec) sbvToInt(t string) string {
 	of, _, _ := x.bigBridges()
 	return "(" + of + " " + t + ")"
+}
+
+func (f *frame) bigStore(n *node, ref, v string) {
+	x := f.x
+	arr := x.hget(n.heap, bigIntKey, SortInt, "")
+	x.hset(n.heap, bigIntKey, SortInt, "", x.g.Fresh(heapArraySort(SortInt, ""), "(store "+arr+" "+ref+" "+v+")"), ref)
+	for _, ep := range f.activeEpochs(n) {
+		ep.written[bigIntKey] = true
+	}
+}
+
+// bigString is the decimal text of a big.Int as an uninterpreted function of its value, with
+// the laws the contracts use: it is never empty, and it starts with '-' exactly when the
+// value is negative (then at least one digit follows).
+func (x *Exec) bigString(v string) Val {
+	g := x.g
+	fa := g.Fun("big:String.bytes", []string{SortInt}, arrSort(SortBV64, SortBV8))
+	fl := g.Fun("big:String.len", []string{SortInt}, SortBV64)
+	arr := g.Fresh(arrSort(SortBV64, SortBV8), "("+fa+" "+v+")")
+	ln := g.Fresh(SortBV64, "("+fl+" "+v+")")
+	g.Assume(and("(bvuge "+ln+" "+bvLit(1, 64)+")", "(bvult "+ln+" "+bvLit(1<<40, 64)+")",
+		eq("(< "+v+" 0)", eq("(select "+arr+" "+bvLit(0, 64)+")", bvLit('-', 8))),
+		implies("(< "+v+" 0)", "(bvuge "+ln+" "+bvLit(2, 64)+")")))
+	return Val{T: types.Typ[types.String], C: []string{arr, bvLit(0, 64), ln}}
 }
 
 // bigIntModel models math/big.Int methods (see BigIntTrusted).
@@ -88,6 +113,8 @@ func (f *frame) bigIntModel(n *node, callee *ssa.Function, full string, args []V
 		v := load(recv)
 		_, _, to := x.bigBridges()
 		return Val{T: rt, C: []string{g.Fresh(SortBV64, "("+to+" "+v+")")}}, true
+	case "String":
+		return x.bigString(load(recv)), true
 	case "Sign":
 		v := load(recv)
 		return Val{T: rt, C: []string{g.Fresh(SortBV64, ite("(< "+v+" 0)", bvLit(^uint64(0), 64), ite("(= "+v+" 0)", bvLit(0, 64), bvLit(1, 64))))}}, true
@@ -117,8 +144,16 @@ func (f *frame) bigIntModel(n *node, callee *ssa.Function, full string, args []V
 	}
 	// everything else: an uninterpreted function of the operand values
 	var terms, sorts []string
-	for _, a := range args {
+	sig := callee.Signature
+	returnsRecv := sig.Results().Len() >= 1 && isBig(Val{T: sig.Results().At(0).Type()})
+	for i, a := range args {
+		if i == 0 && returnsRecv {
+			continue // z.Op(x, y): the receiver is the destination only
+		}
 		switch {
+		case isBig(a) && isNil(a.C[0]):
+			terms = append(terms, "0") // a nil operand (for example Exp's modulus)
+			sorts = append(sorts, SortInt)
 		case isBig(a):
 			terms = append(terms, load(a))
 			sorts = append(sorts, SortInt)
@@ -138,12 +173,15 @@ func (f *frame) bigIntModel(n *node, callee *ssa.Function, full string, args []V
 			}
 		}
 	}
-	sig := callee.Signature
-	returnsRecv := sig.Results().Len() >= 1 && isBig(Val{T: sig.Results().At(0).Type()})
 	if returnsRecv {
 		// a mutator: the receiver takes the function's value and is returned
 		fn := g.Fun("big:"+name, sorts, SortInt)
-		store(recv, g.Fresh(SortInt, "("+fn+" "+strings.Join(terms, " ")+")"))
+		rv := g.Fresh(SortInt, "("+fn+" "+strings.Join(terms, " ")+")")
+		if name == "Exp" && len(terms) == 3 {
+			// x^0 = 1, and a power of a positive base is positive
+			g.Assume(and(implies(and("(= "+terms[1]+" 0)", "(= "+terms[2]+" 0)"), "(= "+rv+" 1)"), implies(and("(> "+terms[0]+" 0)", "(= "+terms[2]+" 0)"), "(> "+rv+" 0)")))
+		}
+		store(recv, rv)
 		if sig.Results().Len() == 1 {
 			return Val{T: rt, C: recv.C}, true
 		}
